@@ -38,6 +38,9 @@ class World:
         self.faults_tx: Dict[int, Tuple[str, int]] = {}
         self.faults_sack: Dict[int, Tuple[str, int]] = {}
         self.held: List[Tuple[int, Any]] = []
+        self.reported_dups = 0
+        self.dup_deliveries = 0
+        self.seen_tsns: set = set()
         ci = prog.cls(T)
 
         def st_send(call, ev):
@@ -46,6 +49,7 @@ class World:
             if me is self.snd:
                 self._emit(self.to_rcv, c, self.faults_tx, "n_tx")
             else:
+                self.reported_dups += len(getattr(c, "duplicates", []) or [])
                 self._emit(self.to_snd, c, self.faults_sack, "n_sack")
             return None
 
@@ -89,6 +93,9 @@ class World:
         elif f[0] == "dup":
             q.append(c)
             q.append(c)
+        elif f[0] == "dup3":
+            for _ in range(4):
+                q.append(c)
         elif f[0] == "hold":
             self.held.append([f[1], q, c])
         # held packets are released once `k` later packets of the same direction have gone out
@@ -124,6 +131,9 @@ class World:
                 if hasattr(c, "streams"):
                     self.hook.run_method(self.f_fwd, self.rcv, [c], {})
                 else:
+                    if c.tsn in self.seen_tsns:
+                        self.dup_deliveries += 1
+                    self.seen_tsns.add(c.tsn)
                     # a copy travels: the receiver must not see the sender's bookkeeping
                     self.hook.run_method(self.f_data, self.rcv, [SimpleNamespace(**{k: v for k, v in vars(c).items() if not k.startswith("_")})], {})
                 if self.rcv._sack_needed:
@@ -194,6 +204,8 @@ def _evaluate(rec: "_Recorder", prog: Program, tier: str) -> None:
     for i in range(n_chunks):
         schedules.append((f"transmission #{i} lost", {i: ("drop", 0)}, {}))
         schedules.append((f"transmission #{i} duplicated", {i: ("dup", 0)}, {}))
+        if i in (2, 7):
+            schedules.append((f"transmission #{i} duplicated three times", {i: ("dup3", 0)}, {}))
         schedules.append((f"transmission #{i} overtaken by the next two", {i: ("hold", 2)}, {}))
     for j in range(4):
         schedules.append((f"SACK #{j} lost", {}, {j: ("drop", 0)}))
@@ -251,6 +263,9 @@ def _evaluate(rec: "_Recorder", prog: Program, tier: str) -> None:
                 problems.append(f"the sender still holds TSN {[c.tsn for c in w.snd._sent_queue]} outstanding / {[c.tsn for c in w.snd._outbound_queue]} unsent after the network recovered")
             elif w.snd._flight_size != 0:
                 problems.append(f"nothing is outstanding but _flight_size is {w.snd._flight_size}")
+            if w.reported_dups > w.dup_deliveries or w.rcv._sack_duplicates:
+                problems.append(f"the receiver's SACKs reported {w.reported_dups} duplicate TSNs but only {w.dup_deliveries} duplicates arrived (still listed: {list(w.rcv._sack_duplicates)}): "
+                                "the duplicate list is not cleared once it has been reported, every SACK grows by what all earlier ones carried")
             stale = {sid: [c.tsn for c in st.reassembly] for sid, st in w.rcv._inbound_streams.items() if st.reassembly}
             if stale and not problems:
                 problems.append(f"chunks left in the receiver's reassembly queues: {stale}")
